@@ -76,7 +76,7 @@ func (g G) deviate(label string, m *MsgSpec) {
 		"noid", "emptyid", "noversion", "emptyversion", "version11", "timelit", "window-past", "window-future", "encoding", "sigalg-nosig", "empty-request", "double-encode",
 		"rogue-sp", "struct"}
 	if m.Kind == "attrq" {
-		opts = append(opts, "subj-unknown", "subj-absent", "subj-nonameid", "noquery", "envelope")
+		opts = append(opts, "subj-unknown", "subj-absent", "subj-nonameid", "noquery", "envelope", "req-noname", "req-noname")
 	}
 	switch g.pick(label+".dev", opts...) {
 	case "issuer-absent":
@@ -151,6 +151,15 @@ func (g G) deviate(label string, m *MsgSpec) {
 		m.SP = -1
 	case "struct":
 		m.Tamper = append(m.Tamper, Tamper{Op: g.pick(label+".sop", "dropElem", "dupElem", "emptyElem", "dropAttr", "emptyAttr", "dupAttr"), A: g.intn(label+".sidx", 40)})
+	case "req-noname":
+		// every requested attribute lacks a usable Name (empty, blank): nothing the user has can match it
+		blank := g.pick(label+".rnn", "", " ", "\t", "  ")
+		if len(m.Requested) == 0 {
+			m.Requested = []CustomAttrCfg{{Name: blank, Format: nfBasic}}
+		}
+		for i := range m.Requested {
+			m.Requested[i].Name = blank
+		}
 	case "subj-unknown":
 		m.SubjMode = "unknown"
 	case "subj-absent":
